@@ -82,7 +82,7 @@ Example find_refines_ref_ex :
   let pb := [94;40;37;97;43;41;91;37;100;95;93;45;37;49;36] in
   let s := [97;98;49;95;97;98] in
   seq_okb ex_pat = true /\ print_seq ex_pat = Some pb /\ goParse pb = ParseOk ex_pat /\
-  is_bytes s = true /\ 1 + Z.of_nat (vm_fuel s (goCompile ex_pat)) <= maxRecursionLevel /\
+  backrefs_ok ex_pat = true /\ is_bytes s = true /\ 1 + Z.of_nat (vm_fuel s (goCompile ex_pat)) <= maxRecursionLevel /\
   0 < len pb /\ ref_find s pb 1 = Ok [VNum 1; VNum 6; VStr [97;98]] /\
   ref_smatch s pb (-6) = Ok [VStr [97;98]].
 Proof. vm_compute. repeat split; congruence. Qed.
